@@ -83,4 +83,15 @@ META["C14"] = dict(
         "request unanswered) and the end of every timeline (silent peer closed in time, waiters released).",
    technique="TLA+ spec (Heartbeat.tla, discrete time) + TLC exhaustive grid + every grid point replayed in virtual time + TLC trace validation",
    design_ref="DESIGN.md 3/C14")
+META["C10"] = dict(
+   text="Open.tla models the open handshake as a one-shot per request with the environment sending verdicts (also twice, also for "
+        "unknown ids), killing the session or firing the timer; TLC checks ExactlyOnce and FirstOutcomeWins for three racing "
+        "requests and every order of five events. Every order of four events is replayed (sampled in quick) on a real client "
+        "Session in virtual time against a scripted server; end-to-end rounds drive racing requests through the real Client, the "
+        "real SOCKS5 front-end and the real server against accepting, refusing and unresolvable loopback targets. "
+        "Trace_Open.tla accepts a completion only if it is the request's first outcome, success only after the target listener "
+        "accepted, a failure (not a timeout) when the server could not connect, 'connected' to the application only on success, "
+        "and application bytes at the target exactly once after the connect.",
+   technique="TLA+ spec (Open.tla) + TLC exhaustive MC + TLC-enumerated answer orders replayed + end-to-end loopback rig + TLC trace validation",
+   design_ref="DESIGN.md 3/C10")
 NOT_YET = "check not built yet in this round (planned: DESIGN.md section 3); not claimed"
